@@ -150,6 +150,8 @@ Hold == [BaseLine EXCEPT !.ty = 128, !.nf = 6, !.bi = Bi(5, 0, 0, 0, 0, "")]
 TypeLine(ty, snd) == [BaseLine EXCEPT !.ty = ty, !.snd = snd, !.nf = 8, !.path = <<"B", "A", "Cn">>]
 AlphaTypesQuick(z) == [i \in 1..(256 * 4) |-> TypeLine((i - 1) % 256, <<0, 2, 13, 255>>[((i - 1) \div 256) + 1])]
                    \o [i \in 1..(256 * 3) |-> TypeLine(<<1, 6, 12>>[((i - 1) \div 256) + 1], (i - 1) % 256)]
+                   \* the type field is an INTEGER of which only the low bits matter
+                   \o [i \in 1..10 |-> TypeLine(<<257, 293, 264, 65664, -1, 256, 2147483647, -2147483647, 1024 + 2, -256 + 12>>[i], 0)]
 AlphaTypesFull(z) == [i \in 1..65536 |-> [BaseLine EXCEPT !.ty = (i - 1) \div 256, !.snd = (i - 1) % 256,
                                                         !.nf = 6, !.bi = Bi(5, 2, 3, 0, 0, ""),
                                                         !.endc = "num", !.end = 2500]]
@@ -185,6 +187,8 @@ BiSet(z) == {Bi(n, b1, b2, cu, vo, fn) : n \in {0, 2, 3, 4, 5}, b1 \in {0, 2, 7}
          \cup {[Bi(5, 1, 1, 0, 0, "") EXCEPT !.cuc = c] : c \in {"bad", "empty"}}
          \cup {[Bi(5, 1, 1, 0, 0, "") EXCEPT !.voc = c] : c \in {"bad", "empty"}}
          \cup {Bi(1, 2, 0, 0, 0, ""), Bi(4, 1, 2, 3, -9, "")}
+         \* a negative custom index, custom index 1, volumes above 100
+         \cup {Bi(5, 1, 1, -1, 0, ""), Bi(5, 0, 0, 1, 101, ""), Bi(5, 2, 0, -2147483647, 150, ""), Bi(3, 3, 3, -7, 0, "")}
 AlphaBank(z) ==
     SetToSeq({[Circle(1, s) EXCEPT !.bi = b] : s \in {0, 1, 2, 14}, b \in BiSet(0)})
     \o SetToSeq({[Spinner EXCEPT !.bi = b, !.snd = 4] : b \in BiSet(0)})
